@@ -2,8 +2,8 @@ SPECIFICATION Spec
 CONSTANTS D = 2
           NPre = 5
           NE = 5
-          EMin = 1
-          EMax = 2
+          EnSet <- E12
+          TMax = 10
           Dirs = {"rtl"}
           Caps = {1, 2, 3, 4, 99}
           Canon = TRUE
